@@ -4,7 +4,7 @@ from pathlib import Path
 LIBS = ["libavoid"]
 HARNESS = "harness/c11.cpp"
 DRIVER_MODE = "c11"
-LEAN_MODULES = ["AdaptaVerif.Props.C11", "AdaptaVerif.Props.C11Tie", "AdaptaVerif.Props.C11Tie2", "AdaptaVerif.Props.C11Legs"]
+LEAN_MODULES = ["AdaptaVerif.Props.C11", "AdaptaVerif.Props.C11Tie", "AdaptaVerif.Props.C11Tie2", "AdaptaVerif.Props.C11Legs", "AdaptaVerif.Props.C11Search"]
 # COLA_ASSERT throws vpsc::CriticalFailure instead of calling abort(): a failed library assertion is
 # reported per case by the harness ("assert" line) and decided by the driver
 EXTRA_FLAGS = ["-DUSE_ASSERT_EXCEPTIONS"]
@@ -25,6 +25,12 @@ LEVEL_TEXT = ("Theorems for all inputs about the Lean model of ShapeConnectionPi
               "and of the whole router after every transaction and at every progress callback inside it (Router subclass), is compared "
               "with the model run on the same edges and masks; setVisibleDirections is probed directly on real vertices; the first and "
               "last edge of every leg of route() must be enabled in the graph the model says that leg's search saw.")
+LEVEL_TEXT += (" The orthogonal A* search for pin-attached ends and checkpoint legs is inside the model (Model/AStarPins.lean on top of the search loop of "
+               "Model/AStar.lean: dummy end vertices and their pin edges, second-level cost targets, CmpVisEdgeRotation with dummy edges, pin skip rules, free steps, dummy DONE node of a "
+               "later leg) with the end-point list of the turn pruning computed from the model's pin state (a pin is a candidate iff it is non-exclusive or has no user); Props/C11Search "
+               "proves, for all pin histories and graphs, that this list is exactly the set of pins the dummy vertex gets an edge to, that a shared pin is in it whatever users it has, and "
+               "that the pruning rule as coded never skips a bend onto the row / column of such a pin. Tie: the graph every orthogonal search was given is read through the library's "
+               "DebugHandler at the start of the search; the model is run on every failed search and on a sample of the successful ones (route vertex for vertex).")
 LEVEL_NOTE = ("Only sampled histories tie the theorems to the C++ (no statement about all runs of libavoid). "
               "Which pin a connector holds is not observable without the optional hook H2 (m_connend_users is "
               "private): exclusivity is decided from positions (ends of a (shape,class) group at one position vs "
@@ -48,7 +54,8 @@ LEVEL_NOTE = ("Only sampled histories tie the theorems to the C++ (no statement 
               "once listed). A failure of that kind on a graph where edges of the connector's checkpoint vertices were still disabled from an earlier "
               "search (seen after the previous transaction for polyline edges, or after this one when the crossing stage can search twice) is outside "
               "every class: plain SPECFAIL 'cp-restricted'. The search itself (A*) is not modelled: the protocol theorems hold for every search function; "
-              "that the search skips disabled edges is what the leg-edge tie checks. Which legs were skipped is read from the library's own diagnostic "
+              "that the search skips disabled edges is what the leg-edge tie checks (since fC11b the orthogonal search IS modelled, see LEVEL_TEXT; a no-path failure that the model "
+              "of the clean search does not reproduce is the strict kind [no-path-but-model-routes], never the known class no-path). Which legs were skipped is read from the library's own diagnostic "
               "('skipping checkpoint', captured from the C stream stderr per transaction); connectors with such a diagnostic are exempt from the leg-edge tie.")
 TECHNIQUE = "Lean 4 theorems (pin position model, assignment state machine, checker soundness) + correspondence harness over move/resize histories"
 RULE = ("random scenes: 2-4 rectangles in own grid cells with 1-5 pins each (proportional/absolute, all sentinels, "
@@ -62,7 +69,9 @@ RULE = ("random scenes: 2-4 rectangles in own grid cells with 1-5 pins each (pro
         "80% of connectors carry 1-3 checkpoints with (arrival, departure) masks drawn from all 15 x 15 combinations (35% (All, restricted), 15% (restricted, All), "
         "35% both restricted), half of the ends are free points, crossingPenalty in {0,50,200,400} and fixedSharedPathPenalty in {0,110} (second search inside the "
         "transaction), histories drag free ends of checkpoint connectors (later search over persisting polyline edges); polyline-only scenes are sparse in half of the "
-        "cases (1-2 shapes, no sentinels). A case is non-trivial if at least one pin-attached end was checked after a move/resize.")
+        "cases (1-2 shapes, no sentinels). Third stream (generator class sharedpin, 200 / 1200 cases): a hub shape with a class of 1-2 shared pins off the centre and off the corner lines "
+        "(in a third of the scenes mixed with an exclusive pin of the class), 2-4 orthogonal connectors attached to that class (destination end in 4 of 5), from pins of other shapes, "
+        "junctions and free points in other grid cells, then the usual connectors and history. A case is non-trivial if at least one pin-attached end was checked after a move/resize.")
 TRUSTED_BASE = ["Lean 4.33 kernel", "axioms: propext, Classical.choice, Quot.sound", "Lean compiler for the driver",
                 "harness/c11.cpp generator + hex-float import", "IEEE exactness of +,-,* on small dyadic data",
                 "AStarPath reads the visibility graph only through EdgeInf::isDisabled (not modelled; checked on the first/last edge of every leg)",
@@ -112,7 +121,11 @@ def plan(tier, seed, searching):
     # over persisting polyline edges); the visibility-edge observables (cpv / probe / visall / viscb lines) are in
     # both streams
     hargs2 = ["--seed", str(seed), "--tier", tier, "--scale", "8" if searching else "1", "--mode", "+".join(modes + ["cpdirs"])]
-    return [dict(hargs=hargs, dargs=strict, label="base"), dict(hargs=hargs2, dargs=strict, label="cpdirs")]
+    # third stream, generator class sharedpin: shared (non-exclusive) pins off the shape centre and off the corner lines,
+    # 2-4 orthogonal connectors whose destination is that pin class (exclusive / shared mixes), moves / resizes afterwards
+    hargs3 = ["--seed", str(seed), "--tier", tier, "--scale", "8" if searching else "1", "--mode", "+".join(modes + ["sharedpin"])]
+    return [dict(hargs=hargs, dargs=strict, label="base"), dict(hargs=hargs2, dargs=strict, label="cpdirs"),
+            dict(hargs=hargs3, dargs=strict, label="sharedpin")]
 
 
 def only_args(hargs, k):
